@@ -261,10 +261,16 @@ pub fn run_case(rep: &Reporter, local: &mut Local, rt: &tokio::runtime::Runtime,
 }
 
 /// Judge one message on both transports; `roundtrip` delivers it and returns what came back.
-pub fn run_case_with(rep: &Reporter, local: &mut Local, gen_name: &str, msg: &[u8], batch: BatchRequestConfig, prop_sig_prefix: &str, mut roundtrip: impl FnMut(Transport) -> srvref::Observed) {
+pub fn run_case_with(rep: &Reporter, local: &mut Local, gen_name: &str, msg: &[u8], batch: BatchRequestConfig, prop_sig_prefix: &str, roundtrip: impl FnMut(Transport) -> srvref::Observed) {
+	run_case_on(rep, local, gen_name, msg, batch, prop_sig_prefix, &[Transport::Http, Transport::Ws], roundtrip)
+}
+
+/// The same judgement on the listed transports only (the HTTP/2 leg has no WebSocket side).
+#[allow(clippy::too_many_arguments)]
+pub fn run_case_on(rep: &Reporter, local: &mut Local, gen_name: &str, msg: &[u8], batch: BatchRequestConfig, prop_sig_prefix: &str, transports: &[Transport], mut roundtrip: impl FnMut(Transport) -> srvref::Observed) {
 	let mut objs: Vec<Option<serde_json::Value>> = Vec::new();
 	let mut classes = Vec::new();
-	for t in [Transport::Http, Transport::Ws] {
+	for t in transports.iter().copied() {
 		let exp = srvref::expect(msg, t, batch);
 		let obs = roundtrip(t);
 		let tn = if t == Transport::Http { "http" } else { "ws" };
@@ -311,7 +317,7 @@ pub fn run_case_with(rep: &Reporter, local: &mut Local, gen_name: &str, msg: &[u
 	// HTTP ≡ WS for non-subscription methods
 	let s = String::from_utf8_lossy(msg);
 	let subby = s.contains("sub");
-	if !subby {
+	if !subby && objs.len() == 2 {
 		if let (Some(a), Some(b)) = (&objs[0], &objs[1]) {
 			if a != b {
 				rep.violation(
@@ -322,7 +328,7 @@ pub fn run_case_with(rep: &Reporter, local: &mut Local, gen_name: &str, msg: &[u
 			}
 		}
 	}
-	local.case(hash_of(msg) ^ hash_of(&format!("{batch:?}")), true, &classes.join("|"));
+	local.case(hash_of(msg) ^ hash_of(&format!("{batch:?}")) ^ if transports.len() == 2 { 0 } else { hash_of(&prop_sig_prefix) }, true, &classes.join("|"));
 }
 
 fn exp_name(e: &Expect) -> &'static str {
@@ -341,7 +347,7 @@ pub fn hex(b: &[u8]) -> String {
 pub fn check(rep: &Reporter) {
 	let thorough = rep.tier.thorough();
 	rep.set_rule(
-		"messages = REQ (21 id forms × 12 methods incl. every handler kind, unknown, empty, escaped spelling, non-string × 11 params × 6 versions (incl. an escaped spelling of 2.0); plus all 24 member orders × 5 extra members incl. duplicates × {0,1,127} leading whitespace bytes on a sub-product) ∪ TOK (all token strings of length ≤5 (thorough 6) over 14 tokens starting with { or [) ∪ MUT (delete/duplicate/replace-by-15-bytes/truncate at every position of 5 (thorough 12) base requests) ∪ BYTES (all strings of ≤2 bytes (quick: a dense subset of the 2-byte ones), every single-byte replacement in 2 (thorough 6) bases); each distinct byte string is sent over HTTP and over a fresh WebSocket connection followed by a sentinel call; all frames until close are collected; the REQ product in canonical order (quick: version 2.0 only) and TOK ≤ 3 additionally travel through Server::start over loopback TCP (raw HTTP/1.1 keep-alive connection resp. soketto client), bare and behind the built-in RPC logger middleware (quick: the logger for TOK and the params-less REQ messages), judged by the same classifier. Oracle = independent classifier on a duplicate-preserving JSON tree. Distinct by byte string; every case is non-trivial (it is executed on both transports).",
+		"messages = REQ (21 id forms × 12 methods incl. every handler kind, unknown, empty, escaped spelling, non-string × 11 params × 6 versions (incl. an escaped spelling of 2.0); plus all 24 member orders × 5 extra members incl. duplicates × {0,1,127} leading whitespace bytes on a sub-product) ∪ TOK (all token strings of length ≤5 (thorough 6) over 14 tokens starting with { or [) ∪ MUT (delete/duplicate/replace-by-15-bytes/truncate at every position of 5 (thorough 12) base requests) ∪ BYTES (all strings of ≤2 bytes (quick: a dense subset of the 2-byte ones), every single-byte replacement in 2 (thorough 6) bases); each distinct byte string is sent over HTTP and over a fresh WebSocket connection followed by a sentinel call; all frames until close are collected; the REQ product in canonical order (quick: version 2.0 only) and TOK ≤ 3 additionally travel through Server::start over loopback TCP (raw HTTP/1.1 keep-alive connection resp. soketto client), bare, as the body of an HTTP/2 request, and behind the built-in RPC logger middleware (quick: the logger for TOK and the params-less REQ messages), judged by the same classifier. Oracle = independent classifier on a duplicate-preserving JSON tree. Distinct by byte string; every case is non-trivial (it is executed on both transports).",
 	);
 	rep.assume("`null` params are 'no params'; ASCII form feed counts as leading whitespace (the library's sniffing window uses is_ascii_whitespace)");
 	let cases = cases(thorough);
@@ -376,6 +382,8 @@ pub fn check(rep: &Reporter) {
 			let (g, msg) = &fam[i];
 			let _e = rt.enter();
 			tcp_case(rep, local, rt, g, msg, BatchRequestConfig::Unlimited, false);
+			// as the body of an HTTP/2 request (UTF-8 or not: the body is opaque to the transport)
+			h2_case(rep, local, rt, g, msg, BatchRequestConfig::Unlimited);
 			// with the RPC logger middleware: every TOK string; of the REQ product every message in the thorough tier, in
 			// the quick tier those without a params member
 			if *g == "tcp-tok" || thorough || !msg.windows(8).any(|w| w == b"\"params\"") {
@@ -674,6 +682,56 @@ pub async fn read_response(io: &mut tokio::net::TcpStream) -> Option<(u16, Vec<u
 
 
 /// Deliver `msg` through a real `Server` over loopback (with this batch configuration) and judge it like any other case.
+/// The message as the body of an HTTP/2 POST (prior knowledge) against `Server::start` over loopback, then the sentinel on
+/// the same connection.
+pub async fn h2_roundtrip(msg: &[u8], log: srv::InvLog, cfg: jsonrpsee_server::ServerConfig) -> Result<srvref::Observed, String> {
+	let listener = std::net::TcpListener::bind("127.0.0.1:0").map_err(|e| format!("bind: {e}"))?;
+	listener.set_nonblocking(true).map_err(|e| e.to_string())?;
+	let addr = listener.local_addr().map_err(|e| e.to_string())?;
+	let server = jsonrpsee_server::Server::builder().set_config(cfg).build_from_tcp(listener).map_err(|e| format!("build: {e}"))?;
+	let handle = server.start(srv::std_module(log.clone()));
+	let mut obs = srvref::Observed { replies: vec![], notifications: vec![], handlers: vec![], sentinel_ok: false, http_status: None, problem: None };
+	let mut conn = srv::h2_connect(addr).await?;
+	let post = |body: &[u8]| http::Request::builder().method("POST").uri(format!("http://{addr}/")).header("content-type", "application/json").body(srv::FramesBody::single(body.to_vec())).unwrap();
+	log.lock().unwrap().clear();
+	match tokio::time::timeout(std::time::Duration::from_secs(10), conn.request(post(msg))).await {
+		Ok(Ok(o)) => {
+			obs.http_status = Some(o.status);
+			if !(o.body.is_empty() || o.body == b"null") {
+				obs.replies.push(o.body);
+			}
+		}
+		Ok(Err(e)) => obs.problem = Some(format!("HTTP/2 request failed: {e}")),
+		Err(_) => obs.problem = Some("hang: no HTTP/2 response within 10 s".into()),
+	}
+	obs.handlers = log.lock().unwrap().clone();
+	if let Ok(Ok(o)) = tokio::time::timeout(std::time::Duration::from_secs(10), conn.request(post(srvref::SENTINEL.as_bytes()))).await {
+		obs.sentinel_ok = o.status == 200 && srvref::is_sentinel_reply(&o.body);
+	}
+	let _ = handle.stop();
+	Ok(obs)
+}
+
+pub fn h2_case(rep: &Reporter, local: &mut Local, rt: &tokio::runtime::Runtime, gen_name: &str, msg: &[u8], batch: BatchRequestConfig) {
+	let mut attempt = 0;
+	loop {
+		attempt += 1;
+		let log: srv::InvLog = Default::default();
+		match rt.block_on(h2_roundtrip(msg, log, srv::cfg_builder().set_batch_request_config(batch).build())) {
+			Ok(o) => {
+				let mut o = Some(o);
+				run_case_on(rep, local, gen_name, msg, batch, "tcp:h2:", &[Transport::Http], |_| o.take().unwrap());
+				break;
+			}
+			Err(_) if attempt < 3 => std::thread::sleep(std::time::Duration::from_millis(50 * attempt)),
+			Err(e) => {
+				rep.machinery_error(format!("SRV-TCP HTTP/2 leg: {e} (message {:?})", String::from_utf8_lossy(msg)));
+				break;
+			}
+		}
+	}
+}
+
 pub fn tcp_case(rep: &Reporter, local: &mut Local, rt: &tokio::runtime::Runtime, gen_name: &str, msg: &[u8], batch: BatchRequestConfig, middleware: bool) {
 	let mut attempt = 0;
 	loop {
